@@ -120,15 +120,29 @@ def execute(case, ch) -> dict:
     done: set[int] = set()
     steps = []
     started_at, ended_at, v_at_start = {}, {}, {}
+    reported = False
     with s.loop:
         while True:
             options = [("start", i, None) for i in range(n) if i not in tasks]
             options += [("complete", i, o) for i in sorted(s.pending) for o in outcomes]
+            if case.get("report") and not reported and tasks:
+                # the engine's own method report (MethodMsg, sent during catch-up after a reconnect), built before any of the saves
+                # reached the engine: carries the initial lines and the initial version, delivered through the real handler
+                options.append(("report", -1, None))
             if not options:
                 break
             kind, i, o = options[ch.pick(len(options), "sched")]
             v_step = s.version()
-            if kind == "start":
+            if kind == "report":
+                import openpectus.protocol.engine_messages as EM
+                import openpectus.protocol.models as PM
+                from openpectus.aggregator.aggregator_message_handlers import AggregatorMessageHandlers
+                msg = EM.MethodMsg(method=PM.Method(version=v0, lines=[PM.MethodLine(id="l0", content="initial"),
+                                                                       PM.MethodLine(id="l1", content="")]))
+                msg.engine_id = ENGINE
+                s.loop.spawn(AggregatorMessageHandlers(s.agg).handle_MethodMsg(msg), name="report")
+                reported = True
+            elif kind == "start":
                 # what the save carries: its own text / the same text as every other save / the text that is stored already
                 content = {"own": f"content of save{i}", "shared": "the same fix", "initial": "initial"}[case.get("texts", "own")]
                 dto = Dto.Method(lines=[Dto.MethodLine(id="l0", content=content)], version=v0 + bases[i], last_author="")
@@ -206,6 +220,11 @@ def check_exec(ex) -> list[tuple[str, str]]:
                     out.append((f"C31:accepted-save-version-delta-not-1:{'on-current-version' if vb == base else 'on-stale-version'}",
                                 f"accepted save{j} changed the version from {vb} to {va} (expected +1); final method content "
                                 f"'{ex['final_content']}' by {ex['final_author']}; schedule: {sched()}"))
+            elif va != vb and kind == "report":
+                b_or_c = True
+                out.append(("C31:version-changed-by-engine-method-report",
+                            f"the engine's method report (built before the saves, version {v0}) changed the version from {vb} to {va}; "
+                            f"schedule: {sched()}"))
             elif va != vb:
                 b_or_c = True
                 who = f"save{j} ({status}: {detail})" if j is not None else "a save that was still running"
@@ -290,14 +309,18 @@ def cases(quick: bool):
                 out.append(dict(v0=v0, bases=list(bases), outcomes=list(OUTCOMES)))
         for bases in ((0, 0, 0, 0), (0, 0, 0, 1), (0, 0, 1, 1), (0, 1, 2, 3)):       # four concurrent saves, two outcomes
             out.append(dict(v0=0, bases=list(bases), outcomes=["ok", "engine_error"]))
+    # the engine's own (stale) method report arrives at any point between / during the saves
+    for bases in ((0,), (0, 0), (0, 1)) + (() if quick else ((0, 0, 1), (0, 1, 2))):
+        for v0 in (0, 5):
+            out.append(dict(v0=v0, bases=list(bases), outcomes=["ok", "engine_error"], report=True))
     # saves that carry the same text (two users typing the same fix, a retried request) or the text that is stored already
     same = []
     for c in out:
-        if len(c["bases"]) <= (2 if quick else 3) or c["bases"] in ([0, 0, 0], [0, 0, 1]):
+        if not c.get("report") and (len(c["bases"]) <= (2 if quick else 3) or c["bases"] in ([0, 0, 0], [0, 0, 1])):
             for texts in ("shared", "initial"):
                 same.append(dict(c, texts=texts))
     out += same
-    out.sort(key=lambda c: (len(c["bases"]), sum(c["bases"]), c["bases"], c["v0"], c.get("texts", "own")))     # simplest first
+    out.sort(key=lambda c: (len(c["bases"]), sum(c["bases"]), c["bases"], c["v0"], c.get("texts", "own"), bool(c.get("report"))))     # simplest first
     return out
 
 
